@@ -57,10 +57,11 @@ def run(pid, tier, seed, replay=None):
                 len(bad), len(ls), '; '.join(l['mismatches'][:2]), s.text().split('\n')[0])
             state['lockstep_bad'] = [{'scenario': s.text(), 'mismatches': l['mismatches'], 'cmd': l.get('cmd')} for s, l in bad[:5]]
         illegal = [(s, l) for s, l in ls if l['status'] == 'ok' and l.get('legal', 'ok') != 'ok']
-        if pid == 'C08' and illegal and msg is None:
-            # the main theorem of Properties_C08.v speaks about legal programs only: a generated scenario outside its
+        if pid in ('C08', 'C03', 'C02') and illegal and msg is None:
+            # the main theorems (C08_handlers_never_nest_nor_run_masked, C03_no_assertion_fails, C02_barrier_returns_flushed) speak about
+            # legal programs with in-range destinations only: a generated scenario outside their
             # hypotheses is a defect of the generator (machinery), reported as a broken tie
-            msg = 'generator produced %d scenarios outside the hypotheses of C08_handlers_never_nest_nor_run_masked (%s): %s' % (
+            msg = 'generator produced %d scenarios outside the hypotheses of the main theorems (legal_h / legal_main / dests_ok / resp_okb: %s): %s' % (
                 len(illegal), illegal[0][1].get('legal'), illegal[0][0].text().split('\n')[0])
         dist = T.distribution(scens, runs)
         nontriv = len({s.key() for s in scens if sp['nontriv'](s)})
@@ -79,7 +80,7 @@ def run(pid, tier, seed, replay=None):
                 'replay': 'write the scenario text to a file and run: simmpi/simrun <options from the cmd field> -- traffic <file>',
                 'extra': {'distribution': dist, 'lockstep_runs': len(ls), 'lockstep_events': sum(l.get('events', 0) for s, l in ls),
                           'lockstep_disagreements': state.get('lockstep_bad', []),
-                          'replayed_scenarios_satisfying_legal_h_and_legal_main': sum(1 for s, l in ls if l.get('legal') == 'ok')}}
+                          'replayed_scenarios_satisfying_the_theorem_hypotheses': sum(1 for s, l in ls if l.get('legal') == 'ok')}}
     def search():
         found = []
         for k in range(1, 6):
